@@ -175,7 +175,8 @@ class NetWorld(World):
               "split_tensor", "replace_with_svd", "gate_inds", "insert_gauge",
               "fuse_multibonds", "isel", "squeeze", "rank_simplify", "cut_bond",
               "canonize_between", "compress_between", "insert_operator",
-              "replace_with_identity", "conj", "multiply"]
+              "replace_with_identity", "conj", "multiply", "new_bond", "cut_between", "randomize", "astype",
+              "expand_bond", "convert_to_zero", "isometrize", "t_new_ind", "t_fuse", "t_squeeze", "t_isel"]
 
     def gen_op(self, S):
         r = S["ops"]
@@ -1008,6 +1009,69 @@ class NetWorld(World):
             raise Skip()
         elif what == "replace_with_identity":
             raise Skip()
+        elif what in ("new_bond", "cut_between", "expand_bond"):
+            tids = sorted(tn.tensor_map)
+            if len(tids) < 2:
+                raise Skip()
+            if what == "new_bond":
+                ta = tids[op["a"] % len(tids)]
+                tb = tids[(op["a"] // 7 + 1 + tids.index(ta)) % len(tids)]
+                if ta == tb:
+                    raise Skip()
+            else:
+                ix, ta, tb = self._two_connected(tn, op)
+                if (hyper or repeated) or ind_size(ix) != 2:
+                    raise Skip()
+            self._unique_tag(tn, ta, "P")
+            self._unique_tag(tn, tb, "Q")
+            if len(tn.tag_map.get("P", ())) != 1 or len(tn.tag_map.get("Q", ())) != 1:
+                tn.drop_tags(["P", "Q"])
+                raise Skip()
+            if what == "new_bond":
+                self._try(lambda: tn.new_bond("P", "Q", size=2))
+            elif what == "cut_between":
+                self._nfresh = getattr(self, "_nfresh", 0) + 2
+                self._try(lambda: tn.cut_between("P", "Q", f"_z{self._nfresh - 1}", f"_z{self._nfresh}"))
+            else:
+                if set(tn._inner_inds) & self._carried_outside(tn):
+                    tn.drop_tags(["P", "Q"])
+                    raise Skip()
+                res = self._try(lambda: tn.expand_bond_dimension(3, inplace=inplace))
+            tn.drop_tags(["P", "Q"])
+        elif what in ("randomize", "astype", "convert_to_zero", "isometrize"):
+            if not tn.tensor_map or (what == "isometrize" and (hyper or repeated)):
+                raise Skip()
+            if what == "convert_to_zero" and (set(tn.ind_map) & self._carried_outside(tn)):
+                raise Skip()  # shrinks bonds: see _carried_outside
+            if what == "randomize":
+                res = self._try(lambda: tn.randomize(seed=op["data_seed"] % 1000, inplace=inplace))
+            elif what == "astype":
+                res = self._try(lambda: tn.astype("complex128", inplace=inplace))
+            elif what == "convert_to_zero":
+                self._try(lambda: tn.convert_to_zero())
+            else:
+                res = self._try(lambda: tn.isometrize(allow_no_left_inds=True, inplace=inplace))
+        elif what in ("t_new_ind", "t_fuse", "t_squeeze", "t_isel"):
+            # tensor-level rewrites through a holder: every owner must follow
+            t = self._some_tensor(op)
+            if len(set(t.inds)) != len(t.inds):
+                raise Skip()
+            if what == "t_new_ind":
+                self._nfresh = getattr(self, "_nfresh", 0) + 1
+                self._try(lambda: t.new_ind(f"_z{self._nfresh}", size=2))
+            elif what == "t_fuse":
+                free = [ix for ix in t.inds if all(len(n.ind_map.get(ix, ())) <= 1 for n in self.nets)]
+                if len(free) < 2:
+                    raise Skip()
+                self._nfresh = getattr(self, "_nfresh", 0) + 1
+                self._try(lambda: t.fuse_({f"_z{self._nfresh}": tuple(free[:2])}))
+            elif what == "t_squeeze":
+                self._try(lambda: t.squeeze_())
+            else:
+                free = [ix for ix in t.inds if all(len(n.ind_map.get(ix, ())) <= 1 for n in self.nets)]
+                if not free:
+                    raise Skip()
+                self._try(lambda: t.isel_({free[op["b"] % len(free)]: 0}))
         elif what == "conj":
             if not tn.tensor_map:
                 raise Skip()
